@@ -77,86 +77,89 @@ class GuardRun:
             c.impl = r
         self.stats["impl_s"] = round(time.time() - t0, 1)
 
+    CHUNK = 300
+
+    def op_sexp(self, c):
+        if c.op == "from_str":
+            return "(from_str %s)" % (c.oracle if c.oracle else "none")
+        if c.op in ("de", "de_json", "de_ron", "de_mp"):
+            return "(de %s)" % (c.oracle if c.oracle and c.oracle != "-" else "none")
+        if c.op in ("default", "arb_range", "msgs"):
+            return "(%s)" % c.op
+        if c.op == "arb":
+            return "(arb%s)" % c.arg[2:-1]
+        if c.op == "cmp2":
+            return "(cmp2 %s)" % c.arg[3:-1]
+        if c.op in ("try_from_ref",):
+            return "(try_from %s)" % c.arg
+        if c.op in ("from_ref",):
+            return "(from %s)" % c.arg
+        return "(%s %s)" % (c.op, c.arg)
+
     def model_lines(self):
+        """one line per declaration and chunk of at most CHUNK cases (id `decl@k`): the ops of
+        the chunk, then the spec ops of the same cases; self._slots maps every output id back"""
         ft = engine.ft_sexp(self.features)
         lines = []
+        self._slots = {}
         for d in self.decls:
-            ops = []
-            for c in self.by_decl.get(d.id, []):
-                if c.op == "from_str":
-                    ops.append("(from_str %s)" % (c.oracle if c.oracle else "none"))
-                elif c.op in ("de", "de_json", "de_ron", "de_mp"):
-                    ops.append("(de %s)" % (c.oracle if c.oracle and c.oracle != "-" else "none"))
-                elif c.op in ("default", "arb_range", "msgs"):
-                    ops.append("(%s)" % c.op)
-                elif c.op == "arb":
-                    ops.append("(arb%s)" % c.arg[2:-1])
-                elif c.op == "cmp2":
-                    ops.append("(cmp2 %s)" % c.arg[3:-1])
-                elif c.op in ("try_from_ref",):
-                    ops.append("(try_from %s)" % c.arg)
-                elif c.op in ("from_ref",):
-                    ops.append("(from %s)" % c.arg)
-                else:
-                    ops.append("(%s %s)" % (c.op, c.arg))
-            for c in self.by_decl.get(d.id, []):
-                if c.spec_arg is not None:
-                    ops.append("(spec %s)" % c.spec_arg)
-            lines.append("(case %s %s %s%s)" % (d.id, ft, d.sexp(), "".join(" " + o for o in ops)))
+            cs = self.by_decl.get(d.id, [])
+            head = d.sexp()
+            nchunks = max(1, (len(cs) + self.CHUNK - 1) // self.CHUNK)
+            for k in range(nchunks):
+                part = cs[k * self.CHUNK:(k + 1) * self.CHUNK]
+                lid = "%s@%d" % (d.id, k)
+                ops = [self.op_sexp(c) for c in part]
+                for j, c in enumerate(part):
+                    self._slots["%s.%d" % (lid, j)] = (c, "model")
+                j = len(part)
+                for c in part:
+                    if c.spec_arg is not None:
+                        ops.append("(spec %s)" % c.spec_arg)
+                        self._slots["%s.%d" % (lid, j)] = (c, "spec")
+                        j += 1
+                self._slots[lid] = (d, "verdict")
+                lines.append("(case %s %s %s%s)" % (lid, ft, head, "".join(" " + o for o in ops)))
         return lines
 
     def run_model(self):
         t0 = time.time()
         lines = self.model_lines()
         out = engine.run_model(lines)
-        for d in self.decls:
-            self.model_verdict[d.id] = out.get(d.id, "missing")
         for c in self.cases:
-            c.model = out.get(c.cid)
+            c.model = None
+        for key, val in out.items():
+            slot = self._slots.get(key)
+            if slot is None:
+                continue
+            obj, what = slot
+            if what == "verdict":
+                if key.endswith("@0"):
+                    self.model_verdict[obj.id] = val
+            elif what == "model":
+                obj.model = val
+            else:
+                obj.spec = val
         for d in self.decls:
-            lst = self.by_decl.get(d.id, [])
-            n = len(lst)
-            j = 0
-            for c in lst:
-                if c.spec_arg is not None:
-                    c.spec = out.get("%s.%d" % (d.id, n + j))
-                    j += 1
+            self.model_verdict.setdefault(d.id, "missing")
         self.stats["model_s"] = round(time.time() - t0, 1)
         self._lines = lines
 
     def vm_crosscheck(self, rng, n=24):
         """evaluate a sample of the cases inside coqc (vm_compute) and compare with the
         extracted model: keeps extraction out of the deciding path's trusted base"""
-        lines = self._lines
-        if not lines:
+        if not self.decls:
             return 0, []
-        idx = sorted({rng.below(len(lines)) for _ in range(n)})
+        idx = sorted({rng.below(len(self.decls)) for _ in range(n)})
         sample = []
         for i in idx:
             # cap the number of ops per line to keep coqc fast
             d = self.decls[i]
-            ops = self.by_decl.get(d.id, [])[:40]
-            sample.append((d, ops, lines[i]))
+            sample.append((d, self.by_decl.get(d.id, [])[:40], None))
         trimmed = []
         ft = engine.ft_sexp(self.features)
-        for d, ops, line in sample:
-            parts = []
-            for c in ops:
-                if c.op in ("from_str", "de", "de_json", "de_ron", "de_mp"):
-                    parts.append("(%s %s)" % ("from_str" if c.op == "from_str" else "de", c.oracle if c.oracle and c.oracle != "-" else "none"))
-                elif c.op in ("default", "arb_range", "msgs"):
-                    parts.append("(%s)" % c.op)
-                elif c.op == "arb":
-                    parts.append("(arb%s)" % c.arg[2:-1])
-                elif c.op == "cmp2":
-                    parts.append("(cmp2 %s)" % c.arg[3:-1])
-                elif c.op == "try_from_ref":
-                    parts.append("(try_from %s)" % c.arg)
-                elif c.op == "from_ref":
-                    parts.append("(from %s)" % c.arg)
-                else:
-                    parts.append("(%s %s)" % (c.op, c.arg))
-            trimmed.append("(case %s %s %s%s)" % (d.id, ft, d.sexp(), "".join(" " + o for o in parts)))
+        for d, ops, _ in sample:
+            trimmed.append("(case %s %s %s%s)" % (d.id, ft, d.sexp(), "".join(" " + self.op_sexp(c) for c in ops)))
         out = engine.coq_eval_lines(trimmed)
         diffs = []
         n_cmp = 0
